@@ -48,7 +48,7 @@ func TestVerifC02Agent(t *testing.T) {
 		i := 0
 		type bad struct {
 			name, class, path string
-			data               []byte
+			data              []byte
 		}
 		var bads []bad
 		for cl, data := range classes {
